@@ -134,6 +134,18 @@ class Fn:
             return [], cname(e.id), env[e.id]
         if isinstance(e, ast.Dict) and not e.keys:
             return [], "[]", ("dict", None)
+        if isinstance(e, ast.Attribute) and ast.unparse(e) == "math.pi" and "math_pi" in self.externs:
+            return [], "math_pi", "F"
+        if isinstance(e, ast.BinOp) and isinstance(e.op, ast.MatMult) and "np_quad_form" in self.externs \
+                and isinstance(e.left, ast.BinOp) and isinstance(e.left.op, ast.MatMult) \
+                and isinstance(e.left.left, ast.Attribute) and e.left.left.attr == "T":
+            # v.T @ m @ w  with v, w 1-D and m 2-D: one uninterpreted BLAS expression
+            b1, c1, t1 = self.expr(e.left.left.value, env)
+            b2, c2, t2 = self.expr(e.left.right, env)
+            b3, c3, t3 = self.expr(e.right, env)
+            if (t1, t2, t3) == (("list", "F"), "MAT", ("list", "F")):
+                return b1 + b2 + b3, "(np_quad_form %s %s %s)" % (c1, c2, c3), "F"
+            raise Unsupported("matrix product %s" % ast.unparse(e))
         if isinstance(e, ast.Attribute):
             b, c, t = self.expr(e.value, env)
             if isinstance(t, tuple) and t[0] == "record" and e.attr in t[2]:
@@ -242,6 +254,9 @@ class Fn:
                 return b, "(%s %s %s)%%Q" % (self.toQ(c1, t1), sym, self.toQ(c2, t2)), "float"
             raise Unsupported("arithmetic on %s, %s" % (t1, t2))
         if op is ast.Div:
+            if t1 == "int" and t2 == "int" and not isinstance(e.right, ast.Constant):
+                v = self.fresh()
+                return b + [(v, "py_truediv_int %s %s" % (c1, c2))], v, "float"
             if not (isinstance(e.right, ast.Constant) and isinstance(e.right.value, int) and e.right.value != 0):
                 raise Unsupported("division by a non-literal")
             return b, "(py_truediv %s %s)" % (self.toQ(c1, t1), self.toQ(c2, t2)), "float"
@@ -423,6 +438,8 @@ class Fn:
             b, c, t = self.expr(e.args[0], env)
             if isinstance(t, tuple) and t[0] == "list":
                 return b, "(py_len %s)" % c, "int"
+            if t == "arr2":
+                return b, "(a_rows %s)" % c, "int"
         if fn == "sum" and len(e.args) == 1 and not e.keywords:
             b, c, t = self.expr(e.args[0], env)
             if t == ("list", "int"):
@@ -451,6 +468,9 @@ class Fn:
                 shape = e.args[0]
             elif not e.args and len(e.keywords) == 1 and e.keywords[0].arg == "shape":
                 shape = e.keywords[0].value
+            elif not e.args and sorted(k.arg for k in e.keywords) == ["dtype", "shape"] \
+                    and {k.arg: ast.unparse(k.value) for k in e.keywords}["dtype"] == "np.float64":
+                shape = [k.value for k in e.keywords if k.arg == "shape"][0]
             if isinstance(shape, (ast.Tuple, ast.List)):
                 dims = [self.expr(d, env) for d in shape.elts]
                 if all(d[2] == "int" for d in dims):
@@ -702,7 +722,10 @@ class Fn:
             for n in ast.walk(s):
                 if isinstance(n, (ast.Break, ast.Continue, ast.Return)):
                     raise Unsupported("break / continue / return inside a loop")
-            if isinstance(s.iter, ast.Call) and ast.unparse(s.iter.func) == "range" and len(s.iter.args) == 1 and not s.iter.keywords:
+            if isinstance(s.iter, ast.Call) and ast.unparse(s.iter.func) in ("range", "numba_guard.prange") \
+                    and len(s.iter.args) == 1 and not s.iter.keywords:
+                # numba_guard.prange is range when interpreted and a parallel loop when compiled; the sequential reading
+                # is rendered (that the iterations are independent is what C15 checks)
                 b, c, t = self.expr(s.iter.args[0], env)
                 if t != "int":
                     raise Unsupported("range of %s" % (t,))
@@ -831,6 +854,15 @@ TARGETS = {
                                                  "bc_", "(bic_cluster M)")),
                            "point_labels": ("list", "int")}, "bm_", "(bic_model M)"),
                          ("bayesian_information_criterion", "return"): "F"}),
+    "likelihood": ("likelihood.py", ["point_log_likelihood_fast", "all_points_all_clusters_log_likelihood_fast"],
+                   {("point_log_likelihood_fast", "point"): ("list", "F"), ("point_log_likelihood_fast", "mu_i"): ("list", "F"),
+                    ("point_log_likelihood_fast", "theta_i"): "MAT", ("point_log_likelihood_fast", "log_det_theta"): "F",
+                    ("point_log_likelihood_fast", "return"): "F",
+                    ("all_points_all_clusters_log_likelihood_fast", "mus"): "arr2",
+                    ("all_points_all_clusters_log_likelihood_fast", "thetas"): ("list", "MAT"),
+                    ("all_points_all_clusters_log_likelihood_fast", "log_det_thetas"): ("list", "F"),
+                    ("all_points_all_clusters_log_likelihood_fast", "stacked_training_data"): "arr2",
+                    ("all_points_all_clusters_log_likelihood_fast", "return"): "arr2"}),
 }
 # per kernel module: extra imports, extra section variables, and calls rendered as section variables / imported definitions
 KERNEL_MODULES = {
@@ -845,6 +877,14 @@ KERNEL_MODULES = {
             "compute_lambda_sum": (["LAM", "int", "int", "int", "int", "int"], "F", "compute_lambda_sum", True),
             "unique_values.locations_compressed": (["int"] * 5, ("list", "int"), "g_locations_compressed", True),
         }},
+    "likelihood": {
+        "imports": "",
+        "vars": ("  Variable M : Type.                            (* 2-D float64 matrices (opaque) *)\n"
+                 "  Variable flit : string -> F.                  (* a float literal, named by its decimal text *)\n"
+                 "  Variable math_pi : F.                         (* math.pi *)\n"
+                 "  Variable np_log : F -> F.                     (* np.log *)\n"
+                 "  Variable np_quad_form : list F -> M -> list F -> F.   (* v.T @ m @ w (BLAS) *)\n"),
+        "externs": {k: ([], None, k, False) for k in ("flit", "flog", "math_pi", "np_quad_form")}},
     "cluster_metrics": {
         "imports": "",
         "vars": ("  Variable M : Type.                            (* 2-D float64 matrices (opaque) *)\n"
